@@ -56,7 +56,7 @@ func (dg *defaultGrowerPipeline) worker(ctx context.Context, wg *sync.WaitGroup,
 			}
 			if err := dg.assemble(root); err != nil {
 				verifPoint("grow.err")
-				errc <- err
+				sendErr(ctx, errc, err)
 				return
 			}
 			select {
